@@ -958,7 +958,10 @@ def apply_contract(eng, c, mod, fdef, args, kwargs, st, node):
         eng.assumed.add("assumed contract: " + c.qualname)
     for label, clause in c.labelled(c.requires, 'pre'):
         t = eval_bool(eng, clause, env, st)
-        if label.startswith('completes:'):
+        if label.startswith('restricts:'):
+            # the callee is verified only under this restriction; the property itself is stated for exactly these runs
+            eng.assumed.add("restriction assumed at call of %s: %s" % (c.qualname, label))
+        elif label.startswith('completes:'):
             # the callee itself stops the run (assert) when this fails: outside "runs that complete"
             eng.assumed.add("run-completes assumption at call of %s: %s" % (c.qualname, label))
         else:
